@@ -142,6 +142,44 @@ pub fn run(ctx: &Ctx) -> Outcome {
     for a in char_accs {
         acc.merge(a);
     }
+    // long runs of one symbol (counters, saturating arithmetic, nesting depths at powers of two)
+    let mut runs: Vec<String> = vec![];
+    let lens: Vec<usize> = (6..=40).chain([63, 64, 65, 127, 128, 129, 255, 256, 257, 300, 1000, 4095, 4096, 4097, 65535, 65536, 65537]).collect();
+    for sym in ALPHABET.iter() {
+        for n in &lens {
+            if *n > 300 && !matches!(*sym, "(" | ")" | "[" | "]" | "{" | "}" | ":" | "a" | "_" | "$" | "/" | " " | "#") {
+                continue;
+            }
+            let r = sym.repeat(*n);
+            runs.push(r.clone());
+            runs.push(format!("#[{r}]"));
+            runs.push(format!("a{r}"));
+            runs.push(format!("{r}a"));
+            runs.push(format!("${r}"));
+            if matches!(*sym, "(" | "[" | "{") {
+                let close = match *sym { "(" => ")", "[" => "]", _ => "}" };
+                runs.push(format!("#[{r}{}]", close.repeat(*n)));
+                runs.push(format!("#[{r}{}]", close.repeat(*n - 1)));
+                runs.push(format!("#[{r}{}]]", close.repeat(*n)));
+            }
+        }
+    }
+    let run_accs: Vec<Acc> = runs
+        .par_iter()
+        .map(|s| {
+            let mut a = Acc::default();
+            a.inc("strings");
+            a.inc("long-run probes");
+            if let Some((what, e, o)) = check_source(s, &mut a) {
+                let shown: String = if s.len() > 120 { format!("{}… ({} bytes)", s.chars().take(60).collect::<String>(), s.len()) } else { s.clone() };
+                a.finding(Finding::new("lex_case", json!({"source": s}), format!("{what} — source {shown:?}"), e, o));
+            }
+            a
+        })
+        .collect();
+    for a in run_accs {
+        acc.merge(a);
+    }
     // corpus: the repository's own grammar files and a few hand-picked maximal-munch / attribute cases
     let mut corpus: Vec<String> = crate::corpus::repo_sources().into_iter().map(|(_, s)| s).collect();
     for s in [":::", "::::", "a:::b", "$a$b", "#[a(b[c{d}e]f)g]", "#[(]]", "start A\n#[(]]", "#[doc = \"é\"]", "#[€]struct A", "#[a", "#[a\n]", "#[(\n", "$start", "$_", "$_a", "$enumx", "// é€😀\r\nstart", "a\u{85}b", "a\u{a0}b", "a\u{feff}b", "\u{2028}start", "x/", "x//", "x/ /"] {
